@@ -128,9 +128,13 @@ class Beam(_Simu):
     useTimoshenko: bool = _params.BoolParameter()
 
     def _Adapt_loaded_mesh(self, mesh: "Mesh") -> "Mesh":
-        # a mesh file holds SEG groups: rebuild the beam groups, as the constructor does
+        # a mesh from the mesher or from a file holds SEG groups: rebuild the beam groups, as the constructor does
         if self.useTimoshenko:
+            if isinstance(mesh.groupElem, _Timoshenko):
+                return mesh
             return _Construct_Timoshenko_mesh(mesh)
+        if isinstance(mesh.groupElem, _EulerBernoulli):
+            return mesh
         return _Construct_Euler_Bernoulli_mesh(mesh)
 
     def Results_nodeFields_elementFields(
